@@ -245,3 +245,51 @@ def eof_is_error(chk, prog, rid, fn_rx, what, cfg=None, floor=1):
                    f"when the peer closes the connection at a line boundary the loop ends as if the terminating blank line had been read: a truncated {what} is "
                    "accepted as complete", where=b.where(r[0]), cfg=cfg)
     chk.floor(f"read loops followed past end of input [{cfg or 'A'}] ({what})", n, floor)
+
+
+
+def family(prog, root_path):
+    """The bodies a rule about `root_path` looks at: the function, its closures, and — since a refactoring may hand a named helper where a
+    closure stood (`.filter_map(parse_pair)`) — every function that is new relative to the pinned tree and is referenced as a value (a function
+    item operand) or called from one of those bodies, with its closures."""
+    root = prog.bodies.get(root_path)
+    if root is None:
+        return []
+    new = set(getattr(prog, "new_functions", []) or [])
+    out, work = [], [root]
+    seen = set()
+    while work:
+        b = work.pop()
+        if b.path in seen:
+            continue
+        seen.add(b.path)
+        out.append(b)
+        for c in prog.closures_of(b.path):
+            work.append(c)
+        refs = set()
+
+        def walk(x):
+            if isinstance(x, dict):
+                if x.get("k") == "const" and x.get("fn") in new:
+                    refs.add(x["fn"])
+                for v in x.values():
+                    walk(v)
+            elif isinstance(x, list):
+                for v in x:
+                    walk(v)
+        walk(b.blocks)
+        for blk, t in b.calls():
+            r = t.get("resolved")
+            if r in new:
+                refs.add(r)
+        for r in refs:
+            if r in prog.bodies:
+                work.append(prog.bodies[r])
+    # a closure whose body was inlined into a member of the family (combinator lowering, closure calls) is looked at there, not twice
+    inlined = set()
+    for b in out:
+        for blk in b.blocks:
+            fc = blk.get("from_closure")
+            if fc:
+                inlined.add(fc)
+    return [b for b in out if b.path not in inlined or b.path == root_path]
